@@ -178,19 +178,20 @@ Proof. exact shared_handles_released. Qed.
    clone is then its own handle, on which it runs any sequence of reads and mutations before dropping it); the scope ends
    when all of them have run to completion; then thread 0 runs any sequence on its handle and drops it.  The typing carries
    who borrows (g_bor) and whom a thread has lent to (lt, in agreement with the machine's lend fields: wt_loans); while a
-   loan is outstanding the lender only lends again and joins.  The initial configuration is well typed, so every reachable
+   loan is outstanding the lender only lends again, joins, and runs read-only operations (ro: on the shared buffer only
+   reads and clones; here it reads its lent handle nreads times while the scope is open).  The initial configuration is well typed, so every reachable
    configuration is (C04_typed_step), none can make an erroneous step, every thread's next event is enabled
    (C04_typed_progress: a borrower's read and clone through the borrowed handle included), and when everybody has finished
    the buffer has been released. ---- *)
-Theorem C04_scoped_handles_typed : forall b0 l0 n bopsf ops0,
-  WT b0 (fun _ => 0%nat) (fun t => negb (Nat.eqb t 0)) (scfg0 b0 l0 n bopsf ops0).
+Theorem C04_scoped_handles_typed : forall b0 l0 n bopsf ops0 nreads,
+  WT b0 (fun _ => 0%nat) (fun t => negb (Nat.eqb t 0)) (scfg0 b0 l0 n bopsf ops0 nreads).
 Proof. exact scoped_handles_typed. Qed.
-Theorem C04_scoped_handles_safe : forall b0 l0 n bopsf ops0 cf,
-  csteps b0 (scfg0 b0 l0 n bopsf ops0) cf ->
+Theorem C04_scoped_handles_safe : forall b0 l0 n bopsf ops0 nreads cf,
+  csteps b0 (scfg0 b0 l0 n bopsf ops0 nreads) cf ->
   WT b0 (fun _ => 0%nat) (fun t => negb (Nat.eqb t 0)) cf /\ forall t a e, Mach.step (ms cf) t a <> Mach.Err e.
 Proof. exact scoped_handles_safe. Qed.
-Theorem C04_scoped_handles_released : forall b0 l0 n bopsf ops0 cf,
-  csteps b0 (scfg0 b0 l0 n bopsf ops0) cf ->
+Theorem C04_scoped_handles_released : forall b0 l0 n bopsf ops0 nreads cf,
+  csteps b0 (scfg0 b0 l0 n bopsf ops0 nreads) cf ->
   (forall t, (t < length (tc cf))%nat -> Mach.started (Mach.getth (ms cf) t) = true -> finished (gettc b0 cf t)) ->
   Mach.live (ms cf) = false.
 Proof. exact scoped_handles_released. Qed.
@@ -216,8 +217,8 @@ Definition ex_bops (i : nat) : list bop :=
 Definition ex_sched3 : list choice :=
   map (fun i => {| who := Nat.modulo i 3; probe := 0; fresh_id := Some (S i) |}) (seq 0 600).
 Example C04_scoped_execution_example :
-  let final := run_sched 0%nat (scfg0 0%nat 5%N 2 ex_bops [HPush [97%N]]) ex_sched3 in
-  csteps 0%nat (scfg0 0%nat 5%N 2 ex_bops [HPush [97%N]]) final
+  let final := run_sched 0%nat (scfg0 0%nat 5%N 2 ex_bops [HPush [97%N]] 2) ex_sched3 in
+  csteps 0%nat (scfg0 0%nat 5%N 2 ex_bops [HPush [97%N]] 2) final
   /\ Mach.live (ms final) = false
   /\ forallb (fun x => match cur x, rest x with Ret _, [] => true | _, _ => false end) (tc final) = true.
 Proof. cbv zeta. split; [apply run_sched_sound|]. vm_compute. auto. Qed.
